@@ -50,3 +50,15 @@ Proof.
   apply all2_Forall2. intros u o E. destruct (interplin xv pc u) as [y|e]; [|discriminate].
   exists y. split; [reflexivity|]. apply close_b_sound. exact E.
 Qed.
+
+(* ---------------------------------------------------------------- the named pieces are the ones the models use *)
+Lemma gen_sample_uses_genrand_accum cumulative pofx x us :
+  gen_sample cumulative pofx x us =
+  if negb (length pofx =? length x)%nat then Err EValue
+  else if (negb cumulative && (length x =? 0)%nat)%bool then Err EValue
+  else let '(xvals, pcum) := gen_tables cumulative pofx x in
+       match pcum with [] => Err EIndex | _ => genrand_accum xvals pcum us end.
+Proof. reflexivity. Qed.
+
+Lemma ri_accepts_is_choice imax nrand unique : ri_accepts imax nrand unique = choice_accepts imax nrand (negb unique).
+Proof. reflexivity. Qed.
